@@ -108,11 +108,11 @@ func (c *qctx) genQ(t *rapid.T, milli int) QV {
 	switch {
 	case milli == 0:
 		// zero, or (one choice per case, so that such weights are equal among themselves) a positive weight below the
-		// grid: 0.0001 ... 0.00009. It is not zero: the range takes part, outranked by every weight of the grid (r7)
+		// grid: 0.0001 ... 0.000000000001. It is not zero: the range takes part, outranked by every weight of the grid (r7)
 		gt, ok := c.tails[0]
 		if !ok {
 			if rapid.IntRange(0, 3).Draw(t, "tiny-positive") == 0 {
-				gt[1] = rapid.SampledFrom([]string{"1", "5", "9", "04", "09"}).Draw(t, "tiny")
+				gt[1] = rapid.SampledFrom([]string{"1", "5", "9", "04", "09", "0001", "00009", "000000001"}).Draw(t, "tiny") // down to 1e-12
 			}
 			c.tails[0] = gt
 		}
